@@ -32,9 +32,10 @@ type Net struct {
 	ep   [2]*Endpoint
 	// OnMessage is called with the lock held for every complete message sent
 	// by `from` (idx counts that side's messages from 0). It returns the
-	// message bodies to deliver to the peer instead (nil = drop); each returned
+	// message bodies to deliver to the peer instead (nil = drop) and bodies to
+	// send back to the sender (a relay that answers by itself); each returned
 	// body is sent as one end-of-message frame.
-	OnMessage func(from, idx int, body []byte) [][]byte
+	OnMessage func(from, idx int, body []byte) (fwd, back [][]byte)
 	// OnStall is called with the lock held when nothing can make progress; it
 	// returns bytes to feed to each side (nil, nil = give up and close).
 	OnStall func() (toCli, toSrv []byte)
@@ -110,11 +111,15 @@ func (e *Endpoint) Write(p []byte) (int, error) {
 		idx := e.nmsg
 		e.nmsg++
 		out := [][]byte{body}
+		var back [][]byte
 		if n.OnMessage != nil {
-			out = n.OnMessage(e.side, idx, body)
+			out, back = n.OnMessage(e.side, idx, body)
 		}
 		for _, b := range out {
 			n.feed(1-e.side, refcodec.Frame{End: 1, Body: b}.Encode())
+		}
+		for _, b := range back {
+			n.feed(e.side, refcodec.Frame{End: 1, Body: b}.Encode())
 		}
 	}
 	n.cond.Broadcast()
